@@ -162,15 +162,72 @@ def explore_orders(lang, text, k, agg):
     return out, base, ncalls, len(keys)
 
 
+def explore_consume_order(lang, agg):
+    """(a3) for every expression the language really uses: every reachable (DFA state x predicate state) configuration x
+    every token class x every permutation of that state's transition list -> Pattern.consume must do the same thing"""
+    from codelimit.common.gsm.Expression import expression_to_nfa, nfa_to_dfa
+    from mc.checks import c15
+
+    out = []
+    for idx, (role, expr) in enumerate(c15.capture()[lang]):
+        dfa = nfa_to_dfa(expression_to_nfa(expr))
+        order, preds = c15.dfa_index(dfa)
+        classes = c15.token_classes(expr)
+        p0, _, _ = c15.run_history(dfa, [])
+        seen = {c15.canon(p0, order, preds): []}
+        frontier = [[]]
+        reported = False
+        while frontier and not reported:
+            nxt = []
+            for hist in frontier:
+                base, alive, _ = c15.run_history(dfa, hist)
+                if not alive:
+                    continue
+                st = base.state
+                original = list(st.transition)
+                perms = list(itertools.permutations(range(len(original)))) if 1 < len(original) <= 4 else [tuple(range(len(original)))]
+                for c in classes:
+                    outcomes = []
+                    for pi in perms:
+                        st.transition[:] = [original[i] for i in pi]
+                        try:
+                            p, ok, amb = c15.run_history(dfa, hist + [c])
+                            oc = ("ambiguous",) if amb is not None else (("dead",) if not ok else ("to", c15.canon(p, order, preds)))
+                        except Exception as e:  # noqa
+                            oc = ("raised", type(e).__name__)
+                        finally:
+                            st.transition[:] = original
+                        outcomes.append(oc)
+                        agg.transitions += 1
+                    if len(set(outcomes)) > 1:
+                        out.append(("result-depends-on-set-iteration-order", {"language": lang, "mode": "consume-level"},
+                                    {"expr": idx, "history": hist + [c]}, f"{lang}[{idx}:{role}] after {hist}: token {c!r} gives {sorted(set(map(str, outcomes)))[:3]} depending on the order of the state's transitions"))
+                        reported = True
+                        break
+                    oc = outcomes[0]
+                    if oc[0] == "to" and oc[1] not in seen:
+                        seen[oc[1]] = hist + [c]
+                        nxt.append(hist + [c])
+                if reported:
+                    break
+            frontier = nxt
+        for k in seen:
+            agg.state([lang, idx, "consume-order", repr(k)])
+    return out
+
+
 # ---------------------------------------------------------------------------------------
 # (b) traversal order
 # ---------------------------------------------------------------------------------------
 
 WALK_TREE = {
-    "r.py": harness.py_function("alpha", 4), "b.js": harness.js_function("beta", 31), "c.java": "class C {\n    void m() {\n        x();\n    }\n}\n",
-    "d1/e.py": harness.py_function("eps", 16), "d1/f.py": harness.py_function("phi", 61), "d2/g.ts": "function g(a: number) {\n  return a;\n}\n",
-    "d2/d3/h.py": harness.py_function("eta", 3), "d0/i.c": "int i(void) {\n  return 1;\n}\n",
-    "d1/a.py": harness.py_function("alpha_again", 7), "d2/a.py": harness.py_function("alpha_third", 2), "d0/a.py": harness.py_function("alpha_4", 5),  # same basename in several folders
+    # root: 3 files (one of them a whole-name language, one extension-less non-source) and 3 folders
+    "r.py": harness.py_function("alpha", 4), "BUILD": harness.py_function("build_rule", 4), "LICENSE": "def not_code():\n    x = 1\n",
+    # the same basename in sibling folders; SConstruct is Python by its whole name
+    "d0/i.c": "int i(void) {\n  return 1;\n}\n", "d0/a.py": harness.py_function("alpha_4", 5),
+    "d1/e.py": harness.py_function("eps", 16), "d1/a.py": harness.py_function("alpha_again", 7), "d1/SConstruct": harness.py_function("scons", 3),
+    "d2/g.ts": "function g(a: number) {\n  return a;\n}\n", "d2/a.py": harness.py_function("alpha_third", 2),
+    "d2/d3/h.py": harness.py_function("eta", 61), "d2/d3/b.js": harness.js_function("beta", 31),
 }
 
 
@@ -227,24 +284,36 @@ def report_of(root: Path):
     return doc, files_order
 
 
-def explore_walk(tree, agg):
+def _walk_once(root, plan):
+    with WalkOracle(plan, root) as w:
+        doc, order = report_of(Path(root))
+    return doc, order, w.points
+
+
+def explore_walk(tree, agg, shard=0, nshards=1):
     out = []
     with harness.temp_tree(tree) as root:
-        with WalkOracle({}, root) as w0:
-            base, order0 = report_of(root)
+        base, order0, pts = isolated(_walk_once, str(root), {})
+
+        class _W0:
+            points = pts
+        w0 = _W0
         if not w0.points:
             raise core.HarnessError("seam os.walk never hit")
         keys = sorted(k for k, n in w0.points.items() if n > 1)
         orders = set()
-        for combo in itertools.product(*[range(w0.points[k]) for k in keys]):
+        for ci, combo in enumerate(itertools.product(*[range(w0.points[k]) for k in keys])):
+            if ci % nshards != shard:
+                continue
             plan = dict(zip(keys, combo))
-            with WalkOracle(plan, root) as w:
-                doc, order = report_of(root)
+            # every order starts from the same process state (a process-wide memo filled by an earlier scan would otherwise
+            # make all orders look alike): run it in a forked child
+            doc, order, points = isolated(_walk_once, str(root), plan)
             agg.transitions += 1
             agg.state(["walk", list(combo)])
             orders.add(tuple(order))
-            if w.points != w0.points:
-                raise core.HarnessError(f"walk choice points changed between executions: {w.points} vs {w0.points}")
+            if points != w0.points:
+                raise core.HarnessError(f"walk choice points changed between executions: {points} vs {w0.points}")
             if doc != base:
                 out.append(("report-depends-on-traversal-order", {}, {"plan": plan}, f"files listed {order} vs {order0}"))
                 break
@@ -432,9 +501,16 @@ def _block(block, agg):
         agg.extra["order_choice_points"] += ncalls
         for kd, sig, extra, d in viol:
             agg.violation(kd, sig, dict(case, **extra), d)
+    elif kind == "consume":
+        _, lang = block
+        viol = explore_consume_order(lang, agg)
+        case = {"part": "consume-order", "language": lang}
+        agg.case(case, True, "consume-order ok" if not viol else "consume-order differs", sample=False)
+        for kd, sig, extra, d in viol:
+            agg.violation(kd, sig, dict(case, **extra), d)
     elif kind == "walk":
-        viol, n_orders = explore_walk(WALK_TREE, agg)
-        case = {"part": "walk"}
+        viol, n_orders = explore_walk(WALK_TREE, agg, block[1], block[2])
+        case = {"part": "walk", "shard": block[1], "of": block[2]}
         agg.case(case, True, f"{n_orders} distinct listing orders", sample=True)
         for kd, sig, extra, d in viol:
             agg.violation(kd, sig, dict(case, **extra), d)
@@ -480,8 +556,11 @@ def replay(case):
         if got != base:
             return [{"kind": "result-depends-on-set-iteration-order", "sig": {"language": case["language"], "mode": "per-set" if mode == "set" else "per-call"}, "detail": ""}]
         return []
+    if case["part"] == "consume-order":
+        viol = explore_consume_order(case["language"], agg)
+        return [{"kind": k, "sig": s, "detail": d} for k, s, _, d in viol]
     if case["part"] == "walk":
-        viol, _ = explore_walk(WALK_TREE, agg)
+        viol, _ = explore_walk(WALK_TREE, agg, case.get("shard", 0), case.get("of", 1))
         return [{"kind": k, "sig": s, "detail": d} for k, s, _, d in viol]
     if case["part"] == "history":
         viol, _ = eval_history(case["seq"], reference_results())
@@ -503,7 +582,10 @@ def run(ctx: core.Ctx):
     for lang in canon.LANGS:
         for pi in range(len(probes(lang))):
             blocks.append(("order", lang, pi, k))
-    blocks.append(("walk",))
+    for lang in canon.LANGS:
+        blocks.append(("consume", lang))
+    for sh in range(12):
+        blocks.append(("walk", sh, 12))
     refs = reference_results()
     seqs = []
     for n in range(1, hist_len + 1):
